@@ -85,6 +85,12 @@ CHECKS["C15"] = dict(
     text="Chunks.tla gives, for every Add/Tick, the allowed outcomes over tracked streams, temporary/final directories and notifications; TLC judges the real receiver under seeded perturbations (drop, swap, duplicate, restart, two senders and two indexes interleaved, corrupted main-file/external-file/header bytes, foreign deployment id or binary version, replica removed, GC ticks anywhere) and requires finalized files to be byte-identical to the source and described by the one notification.",
     note="Trusted: TLC; the cksim driver (harness/transport); chunk size lowered to 1 KB through the package variable. Two recorded findings (external files and the header block are not covered by an effective checksum) are matched by signature and reported as KNOWN-FINDING.")
 
+CHECKS["C14"] = dict(
+    category="exploration", design_ref="5 C14", engine="tlc+sfsim",
+    technique="TLA+ spec (SnapshotFile.tla: layout, size formula, expectation table) as oracle for cases executed on the real snapshot writer/reader/validator/shrink code",
+    text="For block sizes 3..8 every payload length 0..2B+2, seeded write/read segmentations, every single-bit flip and every cut of the block stream; for the production constants payloads 0, 1, a few KB, around one and two 2 MB blocks, with and without compression, seeded segmentations and chunkings of the validator, flips at every region boundary of header block / blocks / tail plus random offsets, cuts, and shrink: TLC checks size = formula, read-back identical, validator accepts exactly the writer's output, a perturbation is refused or harmless, a shrunk file loads as empty.",
+    note="Trusted: TLC, the sfsim driver (harness/rsm/sfsim_test.go); CRC32 strength is assumed, not modelled; the bit-level sweep is execution of the real code with the specification as the expectation table (DESIGN.md section 6). Recorded findings (header block not protected) are reported as KNOWN-FINDING.")
+
 NOT_APPLICABLE = {
     "C13": "encode/decode fidelity and size arithmetic of hand-written codecs over the numeric input space: no state/transition structure for a TLA+ specification to describe (DESIGN.md section 6)",
 }
@@ -146,6 +152,8 @@ def main():
              "kind_free_text": "TLC trace validation (RequestsTrace) of the real request tables driven by harness/root/rqsim_test.go"},
             {"name": "tlc+cksim", "path": "/verif/lib/c15.py", "serves_properties": ["C15"],
              "kind_free_text": "TLC trace validation (ChunksTrace) of the real chunk receiver driven by harness/transport/cksim_test.go"},
+            {"name": "tlc+sfsim", "path": "/verif/lib/c14.py", "serves_properties": ["C14"],
+             "kind_free_text": "TLC judging (SnapshotFileTrace) cases executed on the real snapshot file code by harness/rsm/sfsim_test.go"},
             {"name": "tlc+elsim", "path": "/verif/lib/c19.py", "serves_properties": ["C19"],
              "kind_free_text": "TLC model checking of MCEntryLog + TLC trace validation (EntryLogTrace) of the real entryLog/LogReader driven by harness/logdb/elsim_test.go"},
         ],
